@@ -15,9 +15,9 @@ if [ -f t38x/go.mod ]; then
   ./.work/bin/t38x -repo /repo -out coq/Gen
 fi
 # full Coq build (.vo, never -vos)
-(cd coq && coq_makefile -f _CoqProject -o Makefile >/dev/null && timeout 3000 make -j16)
+(cd coq && coq_makefile -f _CoqProject -o Makefile >/dev/null && (timeout 3000 make -k -j16 || echo 'setup: some Coq file does not compile; the affected property checks will report it'))
 # extraction + OCaml driver
-./ocaml/build.sh
+./ocaml/build.sh || echo 'setup: a model driver failed to build; the affected property checks will report it'
 # server with hooks + harness
 (cd /repo && go build -tags verif -o /verif/.work/bin/tile38-server ./cmd/tile38-server)
 cp /repo/go.sum harness/go.sum
